@@ -106,9 +106,44 @@ package router
 //@   modifies nothing
 //@   ensures [C19:last-quarter-of-the-lifetime] need == (4 * int(gLeft) + 3 < tns(expireTime) - tns(storedTime)) -- i.e. left < floor(lifetime / 4)
 //@   callsite Until: [C19:time-left-of-this-entry] arg0 == expireTime
+// ---- limiter.go: admission (C15) ------------------------------------------------------------------------
+//@ spec func limOK(l *resourceLimiter) bool = l != nil && (l.cl == nil || (l.cl.m != nil && masksOK(l.cl)))
+// AllowN: admitted exactly when every configured limiter admits; the global bucket is asked first, with the
+// cost, and the client limiter is asked only then - with this client's address, the same clock reading and the
+// same cost (so a request the global limit refuses is not charged to the client's subnet).
+//@ func (l *resourceLimiter) AllowN(addr netip.Addr, n int) (err error)
+//@   props C15
+//@   requires limOK(l)
+//@   ghost okG bool = true
+//@   ghost okC bool = true
+//@   ghost nG int = 0
+//@   ghost nC int = 0
+//@   ghost gNow time.Time = nil
+//@   aftercall Now: gNow = ret0
+//@   oncall Limiter.AllowN?: nG = nG + 1
+//@   aftercall Limiter.AllowN?: okG = ret0
+//@   oncall ClientLimiter.AllowN?: nC = nC + 1
+//@   aftercall ClientLimiter.AllowN?: okC = ret0
+//@   modifies field(limiter.e), field(time.Time)
+//@   ensures [C15:admitted-iff-every-limiter-admits] (err == nil) == (okG && okC)
+//@   ensures [C15:global-limit-asked-once] nG == (old(l.global) != nil ? 1 : 0)
+//@   ensures [C15:client-limit-asked-once-after-the-global-admits] nC == ((old(l.cl) != nil && okG) ? 1 : 0)
+//@   callsite Limiter.AllowN?: [C15:global-charged-the-cost] arg0 == l.global && arg1 == gNow && arg2 == n
+//@   callsite ClientLimiter.AllowN?: [C15:charged-to-this-client] arg0 == l.cl && arg1 == addr && arg2 == gNow && arg3 == n
+
+// limiterAllowN: requests without a usable client address are not limited; every other request gets the
+// limiter's verdict for exactly that address and cost.
 //@ func (r *router) limiterAllowN(addr netip.Addr, n int) (err error)
-//@   trusted
-//@   modifies nothing
+//@   props C15
+//@   requires r != nil && limOK(r.limiter)
+//@   ghost gV error = nil
+//@   ghost nA int = 0
+//@   oncall AllowN?: nA = nA + 1
+//@   aftercall AllowN?: gV = ret0
+//@   modifies field(limiter.e), field(time.Time)
+//@   ensures [C15:verdict-of-the-limiter] old(isValidAddr(addr)) ==> nA == 1 && err == gV
+//@   ensures [C15:no-address-no-limit] !old(isValidAddr(addr)) ==> nA == 0 && err == nil
+//@   callsite AllowN?: [C15:this-address-this-cost] arg0 == r.limiter && arg1 == addr && arg2 == n
 // ---- prefetch (C19) -------------------------------------------------------------------------------------
 // prefetchCtl.m guards queue; reserve/done are the only accessors (atomic steps under the mutex).
 //@ func (c *prefetchCtl) reserve(key uint64) (ok bool)
@@ -273,8 +308,8 @@ package router
 //@ func (r *router) handleReq(ctx context.Context, q *dnsmsg.Question, rc *RequestContext)
 //@   props C03 C10 C12 C01 C19
 //@   requires r != nil && q != nil && rc != nil && r.cache != nil && r.cache.logger != nil && (r.cache.memory == nil || memOK(r.cache.memory)) && forall(k, 0, len(r.rules), r.rules[k] != nil)
-//@   requires r.queryCacheHitTotal != nil && r.prefetch != nil && r.prefetch.queue != nil && r.logger != nil && r.prefetchTotal != nil && r.ctx != nil
-//@   modifies rc.Response.Msg, rc.Response.RuleIdx, rc.Response.Cached, rc.Response.IpMark, obj(r.prefetch.queue)
+//@   requires r.queryCacheHitTotal != nil && r.prefetch != nil && r.prefetch.queue != nil && r.logger != nil && r.prefetchTotal != nil && r.ctx != nil && limOK(r.limiter)
+//@   modifies rc.Response.Msg, rc.Response.RuleIdx, rc.Response.Cached, rc.Response.IpMark, obj(r.prefetch.queue), field(limiter.e), field(time.Time)
 //@   ensures rc.Response.Msg != nil && fresh(rc.Response.Msg) && wfMsg(rc.Response.Msg)
 //@   ensures [C03:at-most-one-question] len(rc.Response.Msg.Questions) <= 1
 //@   ensures [C12:no-upstream-opt] noOPT(rc.Response.Msg.Additionals)
@@ -314,8 +349,8 @@ package router
 //@ func (r *router) handleReqMsg(ctx context.Context, m *dnsmsg.Msg, rc *RequestContext)
 //@   props C03 C10 C12 C01
 //@   requires r != nil && m != nil && rc != nil && wfMsg(m) && r.cache != nil && r.cache.logger != nil && (r.cache.memory == nil || memOK(r.cache.memory)) && forall(k, 0, len(r.rules), r.rules[k] != nil)
-//@   requires r.queryCacheHitTotal != nil && r.logger != nil && r.prefetch != nil && r.prefetch.queue != nil && r.prefetchTotal != nil && r.ctx != nil
-//@   modifies rc.Response.Msg, rc.Response.RuleIdx, rc.Response.Cached, rc.Response.IpMark, obj(r.prefetch.queue)
+//@   requires r.queryCacheHitTotal != nil && r.logger != nil && r.prefetch != nil && r.prefetch.queue != nil && r.prefetchTotal != nil && r.ctx != nil && limOK(r.limiter)
+//@   modifies rc.Response.Msg, rc.Response.RuleIdx, rc.Response.Cached, rc.Response.IpMark, obj(r.prefetch.queue), field(limiter.e), field(time.Time)
 //@   ensures rc.Response.Msg != nil && wfMsg(rc.Response.Msg)
 //@   ensures [C20:response-is-its-own-object] rc.Response.Msg != m && (rc.Response.Msg.Additionals == nil || fresh(rc.Response.Msg.Additionals))
 //@   ensures [C09:packable] optSmall(rc.Response.Msg) && smallMsg(rc.Response.Msg)
@@ -374,7 +409,7 @@ package router
 //@ func (r *router) handleServerReq(m *dnsmsg.Msg, rc *RequestContext)
 //@   props C03 C01
 //@   requires r != nil && m != nil && rc != nil && wfMsg(m) && r.cache != nil && r.cache.logger != nil && (r.cache.memory == nil || memOK(r.cache.memory)) && forall(k, 0, len(r.rules), r.rules[k] != nil)
-//@   requires r.queryCacheHitTotal != nil && r.logger != nil && r.queryTotal != nil && r.prefetch != nil && r.prefetch.queue != nil && r.prefetchTotal != nil && r.ctx != nil
+//@   requires r.queryCacheHitTotal != nil && r.logger != nil && r.queryTotal != nil && r.prefetch != nil && r.prefetch.queue != nil && r.prefetchTotal != nil && r.ctx != nil && limOK(r.limiter)
 //@   modifies *
 //@   ensures [C03:always-a-response] rc.Response.Msg != nil && wfMsg(rc.Response.Msg)
 //@   ensures [C20:response-is-its-own-object] rc.Response.Msg != m && (rc.Response.Msg.Additionals == nil || fresh(rc.Response.Msg.Additionals))
@@ -383,7 +418,7 @@ package router
 
 // ---- listeners: one response write per handled request ------------------------------------------------
 
-//@ spec func routerReady(r *router) bool = r != nil && r.cache != nil && r.cache.logger != nil && (r.cache.memory == nil || memOK(r.cache.memory)) && forall(k, 0, len(r.rules), r.rules[k] != nil) && r.queryCacheHitTotal != nil && r.logger != nil && r.queryTotal != nil && r.prefetch != nil && r.prefetch.queue != nil && r.prefetchTotal != nil && r.ctx != nil
+//@ spec func routerReady(r *router) bool = r != nil && r.cache != nil && r.cache.logger != nil && (r.cache.memory == nil || memOK(r.cache.memory)) && forall(k, 0, len(r.rules), r.rules[k] != nil) && r.queryCacheHitTotal != nil && r.logger != nil && r.queryTotal != nil && r.prefetch != nil && r.prefetch.queue != nil && r.prefetchTotal != nil && r.ctx != nil && limOK(r.limiter)
 // the payload size the client advertised: class of the last OPT record of the query, at least 512
 //@ spec func lastOPTAt(m *dnsmsg.Msg, k int) bool = 0 <= k && k < len(m.Additionals) && isOPT(m.Additionals[k]) && forall(j, k+1, len(m.Additionals), !isOPT(m.Additionals[j]))
 
@@ -699,7 +734,7 @@ package router
 // closed and never handled.
 //@ func (s *quicServer) run() (err error)
 //@   props C15
-//@   requires s != nil && s.r != nil && s.l != nil && s.logger != nil
+//@   requires s != nil && s.r != nil && s.l != nil && s.logger != nil && limOK(s.r.limiter)
 //@   noterm
 //@   ghost gRemote net.Addr = nil
 //@   ghost nRemote int = 0
@@ -712,4 +747,4 @@ package router
 //@   callsite go: [C15:refused-connection-not-served] gAdm == nil
 //@   loop 1:
 //@     modifies *
-//@     invariant s != nil && s.r != nil && s.l != nil && s.logger != nil && r == s.r && nRemote >= 0
+//@     invariant s != nil && s.r != nil && s.l != nil && s.logger != nil && r == s.r && nRemote >= 0 && limOK(r.limiter)
